@@ -110,6 +110,170 @@ def realise_plan(plan, files_by_url):
     return out
 
 
+class LockTrace:
+    """Observes, from outside, the per-path locks and the download semaphore of a run: which task takes which
+    lock in which order, when it starts processing its file (and which paths that file has), when it enters
+    and leaves the download semaphore.  row() turns the log into a PathLocks.v case."""
+
+    HEADER = "From Coq Require Import List Arith Bool.\nFrom AM.Model Require Import Base Sched PathLocks.\nImport ListNotations."
+    DEFS = """
+Definition mk_lsys (ls : list (list nat)) (ws : list nat) : lsys :=
+  {| ltasks := List.length ls; locks := fun t => nth t ls []; lwork := fun t => nth t ws 0 |}.
+(* (every task lists its locks in increasing order, the observed schedule is a run of the model that processes
+   every file, the locks each task took are exactly the paths of its file) *)
+Definition m_locks (c : nat * list (list nat) * list nat * list (list nat) * list lact) : bool * bool * bool :=
+  match c with (n, ls, ws, acq, tr) =>
+    let y := mk_lsys ls ws in
+    (fst (laccepts n y tr), snd (laccepts n y tr), list_eqb (list_eqb Nat.eqb) ls acq)
+  end.
+Definition eq3 (a b : bool * bool * bool) : bool :=
+  match a, b with (x1, y1, z1), (x2, y2, z2) => Bool.eqb x1 x2 && Bool.eqb y1 y2 && Bool.eqb z1 z2 end.
+"""
+
+    def __init__(self):
+        self.log = []
+
+    def prepare(self, apt, base=None):
+        import asyncio
+        log = self.log
+        Base = base or asyncio.Semaphore
+
+        class TracingSemaphore(Base):
+            async def acquire(self):
+                r = await super().acquire()
+                log.append(("D", "acq", id(asyncio.current_task())))
+                return r
+
+            def release(self):
+                log.append(("D", "rel", id(asyncio.current_task())))
+                super().release()
+        apt._download_semaphore = TracingSemaphore(apt._config.nthreads)
+
+    def on_downloader(self, d, tag):
+        import asyncio
+        log = self.log
+
+        class TracingLock(asyncio.Lock):
+            def __init__(self, path):
+                super().__init__()
+                self.path = path
+
+            async def acquire(self):
+                r = await super().acquire()
+                log.append(("L", "acq", id(asyncio.current_task()), tag, self.path))
+                return r
+
+            def release(self):
+                log.append(("L", "rel", id(asyncio.current_task()), tag, self.path))
+                super().release()
+
+        class TracingLocks(dict):
+            def setdefault(self, key, default=None):
+                if key not in self:
+                    self[key] = TracingLock(key)
+                return self[key]
+        if hasattr(d, "_path_locks"):
+            d._path_locks = TracingLocks()
+        orig = d.download_file
+
+        async def download_file(source_file):
+            paths = {p for v in source_file.compression_variants.values() for p in v.get_all_paths()}
+            log.append(("F", id(asyncio.current_task()), tag, paths))
+            return await orig(source_file)
+        d.download_file = download_file
+
+    def row(self, nthreads):
+        """-> (coq term, meta) or (None, reason)"""
+        keys = {(ev[3], ev[4]) for ev in self.log if ev[0] == "L"} | \
+               {(ev[2], p) for ev in self.log if ev[0] == "F" for p in ev[3]}
+        # a global order in which every task takes its locks, if there is one: topological order of "taken
+        # before, by one task" (ties by path); a cycle means two tasks take two locks in opposite orders
+        seqs, open_ = [], {}
+        for ev in self.log:
+            if ev[0] == "L" and ev[1] == "acq":
+                open_.setdefault(ev[2], []).append((ev[3], ev[4]))
+            elif ev[0] == "L" and ev[1] == "rel" and ev[2] in open_:
+                seqs.append(open_.pop(ev[2]))
+        seqs += list(open_.values())
+        succ = {k: set() for k in keys}
+        indeg = {k: 0 for k in keys}
+        for sq in seqs:
+            for a, b in zip(sq, sq[1:]):
+                if b not in succ[a]:
+                    succ[a].add(b)
+                    indeg[b] += 1
+        import heapq
+        heap = [(k[0], str(k[1]), k) for k in keys if indeg[k] == 0]
+        heapq.heapify(heap)
+        order = []
+        while heap:
+            _, _, k = heapq.heappop(heap)
+            order.append(k)
+            for b in succ[k]:
+                indeg[b] -= 1
+                if indeg[b] == 0:
+                    heapq.heappush(heap, (b[0], str(b[1]), b))
+        if len(order) != len(keys):
+            cyc = sorted(str(k[1]) for k in keys if indeg[k] > 0)[:4]
+            return None, f"two tasks take the same locks in opposite orders (deadlock-prone): {cyc}"
+        rank = {k: i for i, k in enumerate(order)}
+        order_name = "topological"
+        cur, tasks, tr = {}, [], []
+        bad = None
+        for ev in self.log:
+            if ev[0] == "L":
+                _, kind, task, tag, path = ev
+                if kind == "acq":
+                    if task not in cur:
+                        cur[task] = len(tasks)
+                        tasks.append({"locks": None, "acq": [], "work": 0, "held": 0, "fin": False})
+                    t = tasks[cur[task]]
+                    t["acq"].append(rank[(tag, path)])
+                    t["held"] += 1
+                    tr.append(f"LAcq {cur[task]}")
+                else:
+                    if task not in cur:
+                        bad = "release without acquire"
+                        break
+                    t = tasks[cur[task]]
+                    if not t["fin"]:
+                        t["fin"] = True
+                        tr.append(f"LFin {cur[task]}")
+                    t["held"] -= 1
+                    if t["held"] == 0:
+                        del cur[task]
+            elif ev[0] == "F":
+                _, task, tag, paths = ev
+                if task not in cur:
+                    # the file is processed without any lock taken
+                    cur[task] = len(tasks)
+                    tasks.append({"locks": None, "acq": [], "work": 0, "held": 0, "fin": False, "nolock": True})
+                t = tasks[cur[task]]
+                t["locks"] = sorted(rank[(tag, p)] for p in paths)
+                tr.append(f"LEnter {cur[task]}")
+            else:
+                _, kind, task = ev
+                if task not in cur:
+                    bad = "download semaphore used outside a file task"
+                    break
+                if kind == "acq":
+                    tasks[cur[task]]["work"] += 1
+                    tr.append(f"LAcqD {cur[task]}")
+                else:
+                    tr.append(f"LRelD {cur[task]}")
+        if bad:
+            return None, bad
+        for t in tasks:
+            if t["locks"] is None:
+                t["locks"] = list(t["acq"])      # cancelled before it reached its file
+        term = ctuple(cnat(nthreads), clist(clist(cnat(x) for x in t["locks"]) for t in tasks),
+                      clist(cnat(t["work"]) for t in tasks), clist(clist(cnat(x) for x in t["acq"]) for t in tasks),
+                      clist("(%s)" % a for a in tr))
+        shared = len([1 for k in keys]) and sum(len(t["locks"]) for t in tasks) - len({x for t in tasks for x in t["locks"]})
+        return term, {"tasks": len(tasks), "events": len(tr), "order": order_name, "shared_locks": shared,
+                      "contended": sum(1 for t in tasks if t.get("nolock"))}
+
+
 def pool_listing(root: Path, skip_dists=True):
     """relative path -> (size, int mtime) of the regular files of one repository's mirror directory that are
     not below a dists* directory (skip_dists=False: of all its regular files)"""
